@@ -43,11 +43,12 @@ def _imp():
 class _Contour:
     def __init__(self, coords, object_cells=False):
         self.coordinates = np.array(coords, dtype=float)
-        if object_cells:   # the layout OrContour produces: dtype=object, every cell a 1-element array
+        if object_cells:   # the layout OrContour produces: dtype=object, cells are 1-element arrays or the int 0
             a = np.empty(self.coordinates.shape, dtype=object)
             for i in range(a.shape[0]):
                 for j in range(a.shape[1]):
-                    a[i, j] = np.array([self.coordinates[i, j]])
+                    v = self.coordinates[i, j]
+                    a[i, j] = 0 if v == 0 else np.array([v])
             self.coordinates = a
 
 
@@ -143,6 +144,10 @@ def real_contours_2d(ctx, rng, want):
                 else:
                     c = v.OrContour(m, max(alpha, 0.02), deg_step=rng.choice([3, 6]), sample=sample, allowed_error=0.05)
         except Exception as e:  # noqa  (contour construction is not the subject here)
+            continue
+        if not (isinstance(c.coordinates, np.ndarray) and c.coordinates.ndim == 2):
+            # HighestDensityContour with several disconnected parts stores a list of parts (its TODO): no (n, 2) array
+            ctx.notes["contours_without_coordinate_array_skipped"] = ctx.notes.get("contours_without_coordinate_array_skipped", 0) + 1
             continue
         out.append((kind, m, c))
     return out
@@ -643,12 +648,12 @@ def run(ctx):
     nprng = ctx.np_rng(0)
     shutil.rmtree(OUT, ignore_errors=True)
     os.makedirs(OUT, exist_ok=True)
-    reals = real_contours_2d(ctx, rng, ctx.n(12, 60))
+    reals = real_contours_2d(ctx, rng, ctx.n(12, 48))
     dist = {}
 
     # ---- save cases
     save_cases = []
-    for k in range(ctx.n(240, 2500)):
+    for k in range(ctx.n(240, 1500)):
         n_dim = rng.choice([2, 2, 2, 3, 3, 1, 4])
         save_cases.append({"function": "save_contour_coordinates", "kind": "synthetic", "coords": rand_coords(rng, nprng, n_dim),
                            "semantics": rand_semantics(rng, n_dim), "path": rand_path(rng)})
@@ -677,7 +682,7 @@ def run(ctx):
 
     # ---- plot cases
     plot_cases = []
-    for k in range(ctx.n(240, 2500)):
+    for k in range(ctx.n(240, 1200)):
         coords = rand_coords(rng, nprng, 2, n=rng.choice([1, 2, 3, 4, 7, 30, 180]))
         dc = rng.choice(["none", "true", "array", "array"])
         case = {"function": "plot_2D_contour", "kind": "synthetic", "coords": coords, "swap": rng.random() < 0.5, "dc": dc,
@@ -704,7 +709,7 @@ def run(ctx):
                   len(c["coords"]) >= 3 and (c["swap"] or c["dc"] != "none" or c["sample"] is not None))
 
     # ---- reader cases
-    sizes = [1, 2, 3, 5, 10, 37, 100, 400, 1000] * ctx.n(6, 40) + [10000] * ctx.n(3, 20)
+    sizes = [1, 2, 3, 5, 10, 37, 100, 400, 1000] * ctx.n(6, 30) + [10000] * ctx.n(3, 12)
     read_cases = [dict(gen_dataset(rng, nprng, n), function="read_ec_benchmark_dataset") for n in sizes]
     read_res = [run_read(vu, c, k) for k, c in enumerate(read_cases)]
     read_or = [oracle_read(c, r) for c, r in zip(read_cases, read_res)]
@@ -740,7 +745,7 @@ def run(ctx):
     for i, (c, r) in enumerate(zip(plot_cases, plot_res)):
         if "err" not in r and "skip" not in r and not (c["dc"] == "true" and r.get("computed") is None):
             entries.append(("plot", i, coq_plot(c, r)))
-    coq_rows_budget = ctx.n(1500, 20000)
+    coq_rows_budget = 1500   # larger files: property oracle only (a 10^4-row file is a 1 MB Coq term)
     for i, (c, r) in enumerate(zip(read_cases, read_res)):
         if "err" not in r and c["n"] <= coq_rows_budget:
             entries.append(("read", i, coq_read(c, r)))
